@@ -17,6 +17,14 @@ import importlib, json, sys
 chains = json.loads(sys.stdin.read())
 out = {}
 for ch in chains:
+    if ch.startswith("numpy.dtype:"):
+        import numpy
+        try:
+            numpy.dtype(ch.split(":", 1)[1])
+            out[ch] = {"exists": True, "why": ""}
+        except Exception as e:
+            out[ch] = {"exists": False, "why": type(e).__name__ + ": " + str(e)}
+        continue
     parts = ch.split(".")
     obj = None
     ok = False
